@@ -269,6 +269,12 @@ func c13Run(c *Ctx, level string, mk func(rs []rateSpec) c13Bucket) {
 			return
 		}
 		c.Count("idle_refill_checks", 1)
+		// ... and the full burst can be taken in one request as well (after the same idle time again)
+		advance(idle)
+		if ok, d, isErr := B.consume(minBurst); !ok {
+			c.Violation(level+"/full-burst-refused", sfmt("rates %v: after idling %v a single request for the whole min burst %d was refused (delay %v, error %v)", rs, idle, minBurst, d, isErr), desc)
+			return
+		}
 		// (iv) over-burst on a full bucket
 		advance(maxRefill)
 		ok, d, isErr = A.consume(minBurst + 1)
